@@ -62,7 +62,9 @@ def run_case(wd, plugins, span_first=False, later_lives=()):
                 names.append('no_such_module_%d.P%d' % (id(out), i))
                 continue
             faults = {FAULT_NAME.get(f, f) for f in rec['faults']}
-            p = R.role_plugin(pname(i), set(rec['roles']), faults=faults, order_=rec['order'] - 1)
+            # every other case: the plugin objects are falsy, and a resource fault is a wrong-typed return instead of a raise
+            p = R.role_plugin(pname(i), set(rec['roles']), faults=faults, order_=rec['order'] - 1,
+                              falsy=span_first, resource_wrong_type=(i % 2 == 0))
             p.is_active = types.MethodType(Plugin.is_active, p)       # the real activation rule
             insts[i] = p
 
